@@ -52,6 +52,7 @@ func zeroLit(t types.Type) string {
 func mutgenCmd(args []string) int {
 	fs := flag.NewFlagSet("mutgen", flag.ExitOnError)
 	repo := fs.String("repo", "/repo", "")
+	gen := fs.Int("gen", 1, "operator generation: 1 = statement/condition/literal operators, 2 = confusions (sibling field, same-typed variable, status code, defer-to-call, if removal)")
 	fs.Parse(args)
 	w, err := loadWorld(*repo, "", "")
 	if err != nil {
@@ -76,8 +77,12 @@ func mutgenCmd(args []string) int {
 		off := func(p token.Pos) int { return fset.Position(p).Offset }
 		text := func(nd ast.Node) string { return string(src[off(nd.Pos()):off(nd.End())]) }
 		curFunc := ""
+		gen2ops := map[string]bool{"sibling-field": true, "same-type-var": true, "status-code": true, "defer-to-call": true, "del-if": true, "del-else": true, "cas-swap": true}
 		emit := func(nd ast.Node, op, repl string) {
 			if repl == text(nd) {
+				return
+			}
+			if (*gen == 2) != gen2ops[op] {
 				return
 			}
 			n++
@@ -85,7 +90,7 @@ func mutgenCmd(args []string) int {
 			if len(o) > 160 {
 				o = o[:160] + "…"
 			}
-			enc.Encode(genMutant{ID: fmt.Sprintf("m%04d", n), File: base, Start: off(nd.Pos()), End: off(nd.End()), New: repl, Op: op,
+			enc.Encode(genMutant{ID: fmt.Sprintf("%s%04d", map[int]string{1: "m", 2: "g"}[*gen], n), File: base, Start: off(nd.Pos()), End: off(nd.End()), New: repl, Op: op,
 				Line: fset.Position(nd.Pos()).Line, Func: curFunc, Orig: o})
 		}
 		inRoot := func(call *ast.CallExpr) *types.Func {
@@ -110,6 +115,17 @@ func mutgenCmd(args []string) int {
 			return fn
 		}
 		var ifConds = map[ast.Expr]bool{}
+		lhsIdents := map[*ast.Ident]bool{}
+		ast.Inspect(file, func(nd ast.Node) bool {
+			if as, ok := nd.(*ast.AssignStmt); ok {
+				for _, l := range as.Lhs {
+					if id, isID := l.(*ast.Ident); isID {
+						lhsIdents[id] = true
+					}
+				}
+			}
+			return true
+		})
 		ast.Inspect(file, func(nd ast.Node) bool {
 			switch x := nd.(type) {
 			case *ast.FuncDecl:
@@ -120,6 +136,49 @@ func mutgenCmd(args []string) int {
 			case *ast.IfStmt:
 				ifConds[x.Cond] = true
 				emit(x.Cond, "negate-if", "!("+text(x.Cond)+")")
+				if x.Init == nil {
+					if x.Else == nil {
+						emit(x, "del-if", "")
+					} else {
+						emit(x, "del-else", string(src[off(x.Pos()):off(x.Body.End())]))
+					}
+				}
+			case *ast.SelectorExpr:
+				// status code confusion: codes.X -> another code
+				if id, ok := x.X.(*ast.Ident); ok {
+					if pn, isPkg := info.Uses[id].(*types.PkgName); isPkg && pn.Imported().Path() == "google.golang.org/grpc/codes" {
+						alt := "Unknown"
+						if x.Sel.Name == "Unknown" {
+							alt = "Internal"
+						}
+						emit(x, "status-code", id.Name+"."+alt)
+						return true
+					}
+				}
+				// sibling field of the same type
+				if sel, ok := info.Selections[x]; ok && sel.Kind() == types.FieldVal {
+					recv := sel.Recv()
+					if p, isP := recv.Underlying().(*types.Pointer); isP {
+						recv = p.Elem()
+					}
+					if st, isS := recv.Underlying().(*types.Struct); isS {
+						done := 0
+						for i := 0; i < st.NumFields() && done < 2; i++ {
+							f := st.Field(i)
+							if f.Name() != x.Sel.Name && !f.Embedded() && types.Identical(f.Type(), sel.Type()) {
+								if named, isN := sel.Type().(*types.Named); isN && (named.Obj().Name() == "Mutex" || named.Obj().Name() == "RWMutex") {
+									continue
+								}
+								emit(x.Sel, "sibling-field", f.Name())
+								done++
+							}
+						}
+					}
+				}
+			case *ast.DeferStmt:
+				emit(x, "del-defer", "")
+				emit(x, "defer-to-call", strings.TrimPrefix(text(x), "defer "))
+				return true
 			case *ast.ForStmt:
 				if x.Cond != nil {
 					ifConds[x.Cond] = true
@@ -169,8 +228,6 @@ func mutgenCmd(args []string) int {
 				}
 			case *ast.IncDecStmt:
 				emit(x, "del-incdec", "")
-			case *ast.DeferStmt:
-				emit(x, "del-defer", "")
 			case *ast.GoStmt:
 				emit(x, "del-go", "")
 				emit(x, "go-to-call", strings.TrimPrefix(text(x), "go "))
@@ -186,6 +243,28 @@ func mutgenCmd(args []string) int {
 					}
 				}
 			case *ast.Ident:
+				if v, ok := info.Uses[x].(*types.Var); ok && *gen == 2 && !v.IsField() && v.Pkg() != nil && v.Parent() != nil && v.Parent() != v.Pkg().Scope() {
+					// another local variable / parameter of the same type visible here (declared earlier in an enclosing scope)
+					if _, isLHS := lhsIdents[x]; !isLHS {
+						done := 0
+						for sc := v.Parent(); sc != nil && sc != v.Pkg().Scope() && done < 2; sc = sc.Parent() {
+							for _, name := range sc.Names() {
+								o, isV := sc.Lookup(name).(*types.Var)
+								if !isV || o == v || o.Name() == "_" || o.Pos() >= x.Pos() || !types.Identical(o.Type(), v.Type()) || done >= 2 {
+									continue
+								}
+								if b, isB := v.Type().Underlying().(*types.Basic); isB && b.Kind() == types.Bool || types.TypeString(v.Type(), nil) == "error" || types.TypeString(v.Type(), nil) == "context.Context" {
+									// bools, errors and contexts shadow each other all the time; too noisy
+									if types.TypeString(v.Type(), nil) != "context.Context" {
+										continue
+									}
+								}
+								emit(x, "same-type-var", o.Name())
+								done++
+							}
+						}
+					}
+				}
 				if obj, ok := info.Uses[x]; ok && obj.Pkg() == nil {
 					if x.Name == "true" {
 						emit(x, "bool-flip", "false")
@@ -225,6 +304,13 @@ func mutgenCmd(args []string) int {
 					emit(kv, "del-field", "")
 				}
 			case *ast.CallExpr:
+				if se, ok := x.Fun.(*ast.SelectorExpr); ok && se.Sel.Name == "CompareAndSwap" && len(x.Args) == 2 {
+					n++
+					if *gen == 2 {
+						enc.Encode(genMutant{ID: fmt.Sprintf("g%04d", n), File: base, Start: off(x.Args[0].Pos()), End: off(x.Args[1].End()),
+							New: text(x.Args[1]) + ", " + text(x.Args[0]), Op: "cas-swap", Line: fset.Position(x.Pos()).Line, Func: curFunc, Orig: text(x.Args[0]) + ", " + text(x.Args[1])})
+					}
+				}
 				fn := inRoot(x)
 				if fn == nil {
 					return true
@@ -238,7 +324,7 @@ func mutgenCmd(args []string) int {
 						emit(a, "zero-arg", z)
 					}
 					if i+1 < len(x.Args) && i+1 < sig.Params().Len() && !(sig.Variadic() && i+1 >= sig.Params().Len()-1) {
-						if types.Identical(sig.Params().At(i).Type(), sig.Params().At(i+1).Type()) {
+						if *gen == 1 && types.Identical(sig.Params().At(i).Type(), sig.Params().At(i+1).Type()) {
 							n++
 							enc.Encode(genMutant{ID: fmt.Sprintf("m%04d", n), File: base, Start: off(a.Pos()), End: off(x.Args[i+1].End()),
 								New: text(x.Args[i+1]) + ", " + text(a), Op: "swap-args", Line: fset.Position(a.Pos()).Line, Func: curFunc, Orig: text(a) + ", " + text(x.Args[i+1])})
